@@ -16,8 +16,12 @@
 //         every string reachable from the Manifest is read (dangling references become ASan reports).
 //
 // The "file system" is finite: readFile() fails (returns null, as for a file that cannot be opened)
-// for unknown names and after kMaxLoads loads in one run, which bounds include fan-out. It does NOT
-// bound include depth below kMaxLoads: unbounded recursion in the loader shows up as a stack overflow.
+// for unknown names and after maxLoads() loads in one run (default 1200, environment FZ_MAX_LOADS),
+// which bounds the work that include fan-out can legitimately cause (two self-includes per file would
+// otherwise mean 2^depth parses). It does NOT bound include depth below that budget: checks/c19.py
+// runs this target with a 1 MB stack (`ulimit -s 1024`), where unbounded recursion in the loader
+// overflows the stack after about 750 nested files, i.e. inside the budget; every stack-overflow
+// artifact is then confirmed with the default 8 MB stack and FZ_MAX_LOADS=1000000 before it counts.
 #include "fz_common.h"
 
 #include "llbuild/Ninja/Lexer.h"
@@ -36,7 +40,15 @@ using namespace llbuild::ninja;
 namespace {
 
 const size_t kMaxFiles = 16;
-const size_t kMaxLoads = 20000;
+size_t maxLoads() {
+  static size_t v = 0;
+  if (!v) {
+    const char* e = getenv("FZ_MAX_LOADS");
+    v = e ? strtoull(e, nullptr, 10) : 0;
+    if (!v) v = 1200;
+  }
+  return v;
+}
 const char kMarker[] = "#@file ";
 const size_t kMarkerLen = sizeof(kMarker) - 1;
 
@@ -139,7 +151,7 @@ struct LoaderActions : public ManifestLoaderActions {
     fz::touch(path.data(), path.size());
     fz::touch(forFilename.data(), forFilename.size());
     if (forToken) readToken(*forToken);
-    if (loads >= kMaxLoads) { ++refused; return nullptr; }
+    if (loads >= maxLoads()) { ++refused; return nullptr; }
     StringRef rel = path;
     if (rel.startswith("/w/")) rel = rel.substr(3);
     for (const File& f : files) {
